@@ -49,6 +49,7 @@ OFF_ABS = Fraction(1, 10 ** 6)
 OFF_EDGE = (1.5e-6, 1.0 - 1.5e-6)
 OFF_MID = (1e-3, 0.25, 0.5, 0.75, 0.9, 1.0 - 1e-3)
 STARTS = (0.0, 0.1, -0.3, 1.7)
+FAR = ((0.01, 2000.0), (0.004, -500.0), (0.05, 12345.0))
 FIXED_DTS = (0.1, 0.05, 0.01, 0.2, 0.25, 0.3, 0.7, 1e-3, 1.0 / 3.0)
 
 ALPHA = 1e-10         # bath coupling of the cheap model
@@ -100,7 +101,12 @@ def oracle_steps(start, end, dt):
     q = (Fraction(end) - Fraction(start)) / Fraction(dt)
     r = math.floor(q + Fraction(1, 2))
     dist = abs(q - r)
-    if dist <= GRID_REL * max(Fraction(1), abs(q)):
+    # "up to floating point rounding": of the quotient, and of the two times
+    # themselves (matters once |start| >> dt: one ulp of 2000.12 is 2e-11
+    # steps of 0.01)
+    ulp_steps = 2 * Fraction(math.ulp(max(abs(start), abs(end)))) \
+        / Fraction(dt)
+    if dist <= GRID_REL * max(Fraction(1), abs(q)) + ulp_steps:
         return "grid", int(r)
     if dist >= OFF_ABS:
         return "off", int(math.floor(q))
@@ -178,7 +184,7 @@ def required_cells(tier):
         "api:gradient:all": 50, "api:gradient:final": 50,
         "api:pttebd": 10, "e2e:m<=30": 500, "e2e:m>30": 4,
         "e2e:quotient-below-integer": 20,
-        "pttempo-refuses-n<2": 4,
+        "pttempo-refuses-n<2": 4, "tebd:query-between-computes": 2,
     }
     req = {"pts/" + k: v for k, v in pts.items()}
     req.update({"labels_checked": 1000, "states_aligned": 1000,
@@ -210,6 +216,19 @@ def cases(tier, seed):
                     ms = [0] + ms
                 out.append({"kind": "e2e", "dt": dt, "start": st, "dti": i,
                             "sti": j, "ms": ms, "seed": seed, "tier": tier})
+    # far from the time origin: |start|/dt >= 1e5 (grid times that agree to
+    # five digits must stay distinct points with their own states)
+    for i, (dt, st) in enumerate(FAR):
+        out.append({"kind": "hook", "dt": dt, "start": st, "dti": 100 + i,
+                    "sti": 100 + i, "seed": seed, "tier": tier, "far": True})
+        for g in range(0, M_E2E if tier != "quick" else 10, group):
+            ms = list(range(g + 1, g + group + 1))
+            out.append({"kind": "e2e", "dt": dt, "start": st, "dti": 100 + i,
+                        "sti": 100 + i, "ms": ms, "seed": seed, "tier": tier,
+                        "far": True})
+        out.append({"kind": "tebd", "dt": dt, "start": st, "dti": 100 + i,
+                    "sti": 100 + i, "ns": [4 + i, 17], "idx": 1000 + i,
+                    "seed": seed, "tier": tier, "far": True})
     # a sample beyond 30 (prefer points where truncation would lose a step)
     nbeyond, mhi = (12, 200) if tier == "quick" else (80, 1000)
     rng = gen.rng_for(seed, "c13beyond")
@@ -794,6 +813,13 @@ def run_tebd(case):
             oqupy.AugmentedMPS([RHO0, RHO1]), chain, pts,
             oqupy.PtTebdParameters(dt=dt, epsrel=TEBD_EPSREL, order=2),
             start_time=start, start_step=start_step, dynamics_sites=[0, 1])
+        if idx % 2 and n >= 2:
+            # reached in two calls with a look at the current chain state in
+            # between (must not shift what is recorded under which label)
+            tebd.compute(start_step + n // 2, progress_type="silent")
+            tebd.get_current_density_matrix(idx % 2)
+            tebd.get_current_density_matrix((0, 1))
+            book.cell("tebd:query-between-computes")
         res = tebd.compute(start_step + n, progress_type="silent")
         book.cell("api:pttebd")
         if start_step:
